@@ -143,6 +143,12 @@ func run(id, tier string) int {
 	ctx := &rt.Ctx{Prop: id, Tier: tier, Seed: seed(), Scratch: mkScratch(id), Deadline: t0.Add(budget(tier)), Cov: rt.NewCoverage(), Level: p.Level}
 	defer cleanup()
 	vs := p.Run(ctx)
+	if len(vs) == 0 && len(ctx.Stuck) > 0 {
+		rt.Harnessf("%s", ctx.Stuck[0])
+	}
+	for _, st := range ctx.Stuck {
+		ctx.Cov.Cap("a worker had to be stopped after the deadline: " + strings.SplitN(st, "\n", 2)[0])
+	}
 
 	// de-duplicate by signature
 	seen := map[string]bool{}
